@@ -29,11 +29,11 @@ _M = {}
 _LEAVES = None
 
 
-def _model(expr):
+def _model(expr, dtype="double"):
     from sasmodels import core
-    if expr not in _M:
-        _M[expr] = core.load_model(expr, dtype="double", platform="dll")
-    return _M[expr]
+    if (expr, dtype) not in _M:
+        _M[expr, dtype] = core.load_model(expr, dtype=dtype, platform="dll")
+    return _M[expr, dtype]
 
 
 def leaf_pool():
@@ -77,6 +77,12 @@ def expr_cases(draw, shard, nshards):
         nleaves += nf
         terms.append(facs)
     dim = draw(st.sampled_from(["1d", "1d", "2d"]))
+    single = draw(st.integers(0, 3)) == 0
+    if single and draw(st.booleans()):
+        # mixed precision on purpose: a pure-Python part (always double) written before compiled parts
+        pyl = [n for n in pool if callable(core.load_model_info(n).Iq)]
+        if pyl:
+            terms[0][0] = draw(st.sampled_from(pyl))
     leaves = []
     for facs in terms:
         for name in facs:
@@ -103,6 +109,7 @@ def expr_cases(draw, shard, nshards):
             "scale": S.sig(draw(st.floats(0.1, 5)), 4), "background": draw(st.sampled_from([0.0, 0.03])),
             "up": {"up_frac_i": draw(st.sampled_from([0.0, 0.3, 1.0])), "up_frac_f": draw(st.sampled_from([0.0, 0.6])),
                    "up_theta": 70.0, "up_phi": 15.0},
+            "single": single,
             "perm": draw(st.permutations(list(range(len(terms))))),
             "fperm": [draw(st.permutations(list(range(len(f))))) for f in terms]}
     if dim == "1d":
@@ -230,6 +237,19 @@ def check_mixture(case, rec):
     if msg:
         rec.fail("combine:" + tag, "%s: %s" % (expr, msg))
         return
+    # ---- the same expression asked for in single precision: parts that are not single-safe (and pure-Python
+    # parts) stay double, so the components run at different precisions; the combination must still hold
+    def single_safe(name):
+        info_ = core.load_model_info(name)
+        return bool(callable(info_.Iq) or info_.single)
+    if case.get("single") and not any_mag and all(single_safe(part) for n_ in flat for part in n_.split("@")):
+        # (an explicit single request is honoured even for models declared unsafe for it - their NaNs and
+        # inaccuracies are their own - so only expressions built from single-safe and pure-Python parts are asked)
+        rec.cls("single-precision-request")
+        got_s = np.asarray(direct_model.call_kernel(_model(expr, "single").make_kernel(qv), dict(pars), cutoff=0.0), float)
+        msg = c01.close(got_s - case["background"], got - case["background"], mag, 1e-2)
+        if msg:
+            rec.fail("combine-single:" + tag, "%s: %s" % (expr, msg))
     # ---- order independence
     perm, fperm = case["perm"], case["fperm"]
     if perm != sorted(perm) or any(fp != sorted(fp) for fp in fperm):
@@ -264,5 +284,5 @@ def plan(tier):
 
 
 def run_shard(ctx, spec):
-    per = 50 if ctx.tier == "quick" else 950
+    per = 120 if ctx.tier == "quick" else 1100
     ctx.explore("mixture", expr_cases(spec["shard"], spec["n"]), per, shrink_examples=40)
